@@ -1671,6 +1671,9 @@ class Executor:
     def st_AugAssign(self, node, st):
         cur = self.ev(node.target, st)
         rhs = self.ev(node.value, st)
+        from .calls import KeysView
+        if isinstance(rhs, KeysView):
+            rhs = rhs.as_list(self, st)       # list += d.values()
         if isinstance(node.op, ast.Add) and isinstance(cur.ty, TList):
             # list += list  is extend (in place)
             from .calls import list_extend
